@@ -201,7 +201,8 @@ CHECKS = {
     "C03": dict(
         text="PARTIAL (staged as planned). Coq theorems for the modelled parts: C03_intern / C03_intern_no_duplicates (interning: handle in range, gives the key back, old handles stable, no key stored twice), "
              "C03_canonical (for ANY frame list, building the stack frame by frame and walking the returned index gives the frame list back, and every prefix points to an earlier row), "
-             "C03_table_indices (for ANY sequence of label / native frame requests and string conversions, the frame, func, resource, native-symbol and string tables keep equal column lengths and every stored index in range), "
+             "C03_table_indices (for ANY sequence of label frames with and without source location, native frames, native-symbol handles, already symbolicated frames with any inline depth / name / file / line, "
+             "and string conversions, the frame, func, resource, native-symbol and string tables keep equal column lengths and every stored index in range), "
              "C03_stack_frames_in_range, C03_stack_same_handle, C03_finite_paths, C03_ids_unique (pid/tid strings pairwise distinct under any id reuse), C03_thread_refs (the translated index of a thread handle denotes that thread "
              "in the serialized order), C03_threads_adjacent / C03_threads_all_serialized / C03_main_thread_first (the threads of a process form one block that starts with a main thread when there is one), "
              "C03_first_thread_index (a counter's mainThreadIndex is the first thread of the process the caller named), C03_marker_fields (for ANY interleaving of schema registrations and add_marker calls, "
@@ -211,7 +212,7 @@ CHECKS = {
              "id strings, thread order, counter thread indices, every marker's name and field values (static and runtime schemas), and the exact contents of the string / frame / func / resource / native-symbol tables "
              "and the used-library order against the model.",
         note="Trusted: Coq kernel; harness h_fxprof; vlib/c03.py (catalogue of which JSON column indexes which table; frame content ids; expected address resolution). NOT yet modelled / proved: "
-             "pre-symbolicated frames with inline depth (handle_for_frame_with_address_and_symbol), frames with source locations, JS frames, allocation samples, counter sample columns (their ordering is C04), "
+             "JS frames / frame flags / subcategories, kernel library mappings, allocation samples, counter sample columns (their ordering is C04), "
              "marker graphs and the schema JSON. For those parts the claim rests on the verified checker applied to sampled outputs, which is testing.",
         technique="Coq proof (interning and stack-table invariants, unique-suffix scheme, sort/translation contract, verified table checker) + correspondence run evaluated by vm_compute",
         category="proof",
